@@ -679,7 +679,7 @@ def run(chk: Check):
     rule_e6(chk, ix)
     tr.feed(chk, {k: "E7-action-type-hazard" for k in (
         "S0-bad-attribute", "S0-none-attribute", "S0-none-iterated", "S0-none-subscript", "S0-bad-operand", "S0-bad-index",
-        "S0-unpack-arity", "S0-call-arity", "S0-none-len", "S0-chain-nonlist", "S0-index-empty", "E4-mixed-literal-add")})
+        "S0-unpack-arity", "S0-call-arity", "S0-none-len", "S0-chain-nonlist", "S0-index-empty", "E4-mixed-literal-add", "S0-assert-none")})
     chk.units["type_hazard_rules"] = "attribute/subscript/iteration/operand/arity hazards met while typing 600+ action call sites"
     chk.floor("T1-scan-progress", 3)
     chk.floor("T1-monotone-pos", 6)
